@@ -57,6 +57,11 @@ type Lemma struct {
 	Pkg  string
 	Tags []string
 	Src  string
+	// commutation lemma: two calls of FuncKey in either order from the same state
+	Commute bool
+	FuncKey string
+	Shared  []string // parameters that have the same value in both calls (the receiver, the shared state)
+	Given   Expr     // extra hypothesis over the duplicated parameters (name1 / name2)
 }
 
 type FuncContract struct {
@@ -110,7 +115,7 @@ type ContractFile struct {
 }
 
 var clauseKeywords = map[string]bool{
-	"pred": true, "def": true, "spec": true, "axiom": true, "func": true, "lemma": true,
+	"pred": true, "def": true, "spec": true, "axiom": true, "func": true, "lemma": true, "commute": true,
 	"requires": true, "ensures": true, "modifies": true, "decreases": true, "loop": true,
 	"pure": true, "inline": true, "trusted": true, "terminates": true, "panics": true, "callback": true, "ghost": true,
 }
@@ -179,6 +184,34 @@ func ParseContractFile(path, pkg string) (*ContractFile, error) {
 			}
 			s.Pkg = pkg
 			cf.Specs = append(cf.Specs, s)
+		case "commute":
+			// commute <name> [tags]: <FuncKey> [shared <p1>, <p2>] [given <expr>]
+			name, rest, ok := strings.Cut(it.text, ":")
+			if !ok {
+				return nil, fail(fmt.Errorf("want commute name: FuncKey [shared ...] [given ...]"))
+			}
+			name = strings.TrimSpace(name)
+			var tags []string
+			if j := strings.Index(name, "["); j >= 0 {
+				k := strings.Index(name, "]")
+				tags = splitTrim(name[j+1:k], ",")
+				name = strings.TrimSpace(name[:j])
+			}
+			l := &Lemma{Name: name, Pkg: pkg, Tags: tags, Src: rest, Commute: true}
+			if i := strings.Index(rest, " given "); i >= 0 {
+				g, err := ParseExpr(rest[i+7:])
+				if err != nil {
+					return nil, fail(err)
+				}
+				l.Given = g
+				rest = rest[:i]
+			}
+			if i := strings.Index(rest, " shared "); i >= 0 {
+				l.Shared = splitTrim(rest[i+8:], ",")
+				rest = rest[:i]
+			}
+			l.FuncKey = strings.TrimSpace(rest)
+			cf.Lemmas = append(cf.Lemmas, l)
 		case "axiom", "lemma":
 			name, rest, ok := strings.Cut(it.text, ":")
 			if !ok {
